@@ -473,7 +473,8 @@ pub fn run_main(entries: Vec<Entry>) -> ! {
    let t0 = Instant::now();
    std::panic::set_hook(Box::new(|_| {}));
    start_watchdog(Duration::from_secs(180));
-   let groups = match build_groups(&entries, args.only.as_deref()) {
+   let only = if args.prop == "C20" { None } else { args.only.as_deref() };
+   let groups = match build_groups(&entries, only) {
       Ok(g) => g,
       Err(e) => {
          eprintln!("infrastructure error: {e}");
@@ -490,6 +491,22 @@ pub fn run_main(entries: Vec<Entry>) -> ! {
       std::process::exit(code);
    }
 
+   if args.prop == "C20" {
+      // the process-wide shard count is fixed by the first use of a concurrent index: make that first use happen
+      // inside a pool of the requested size
+      if let Ok(k) = std::env::var("VERIF_FIRST_POOL") {
+         if let Ok(k) = k.parse::<usize>() {
+            let n = pools::pool(k).install(vglue::shards_count_now);
+            eprintln!("first use of ascent in a pool of {k} threads: shards_count = {n}");
+         }
+      }
+      crate::concurrent::run_all(&args, &groups, &result, &nontrivial_set);
+      let mut res = result.into_inner().unwrap();
+      res.nontrivial = nontrivial_set.into_inner().unwrap().len() as u64;
+      res.wall_s = t0.elapsed().as_secs_f64();
+      std::fs::write(&args.out, serde_json::to_string_pretty(&res).unwrap()).expect("write result");
+      std::process::exit(if !res.infra_errors.is_empty() { 2 } else { 0 });
+   }
    let any_par = groups.iter().any(|g| g.members.iter().any(|m| m.meta.kind.is_par()));
    let threads = if any_par { args.threads.min(4) } else { args.threads };
    std::thread::scope(|scope| {
@@ -502,6 +519,7 @@ pub fn run_main(entries: Vec<Entry>) -> ! {
             let group = &groups[gi];
             match args.prop.as_str() {
                "C13" => crate::history::run_group_history(&args, group, &result, &nontrivial_set),
+               "C14" => crate::timeout::run_group_timeout(&args, group, &result, &nontrivial_set),
                _ => run_group(&args, group, &plan, &result, &nontrivial_set),
             }
          });
@@ -675,10 +693,21 @@ fn replay(args: &Args, groups: &[Group], plan: &ParPlan, path: &str) -> i32 {
          return 2;
       },
    };
+   if args.prop == "C20" {
+      return crate::concurrent::replay(args, groups, rf.ops.as_deref().unwrap_or("[]"));
+   }
    let Some(group) = groups.iter().find(|g| g.base == rf.base) else {
       eprintln!("replay: base {} not in this batch", rf.base);
       return 2;
    };
+   if args.prop == "C14" {
+      let out = crate::timeout::run_timeout_case(group, &rf.input, args.seed);
+      let failed = !out.failures.is_empty();
+      let j = serde_json::json!({"replayed": 1, "failed": failed as u32, "failures": out.failures,
+         "signature": if failed { Some(detail_signature(&args.prop, &out.failures)) } else { None }});
+      std::fs::write(&args.out, serde_json::to_string_pretty(&j).unwrap()).ok();
+      return if failed { 1 } else { 0 };
+   }
    if args.prop == "C13" {
       let ops: Vec<crate::history::Op> = serde_json::from_str(rf.ops.as_deref().unwrap_or("[\"Run\",\"Run\"]")).expect("ops");
       let out = crate::history::run_history(group, &rf.input, &ops);
